@@ -55,6 +55,7 @@ Definition scalars_of (a : enc * list N) : list N := decode_units (fst a) (snd a
 
 Section WithIdna.
 Variable idna : list N -> option (list N).
+Variable ops : parser_ops.
 
 Record pstate_ := mk_ps { ps_store : store; ps_usp : list (list pair_t) }.
 Definition init_ps : pstate_ := mk_ps init_store [[]; []; []; []].
@@ -69,7 +70,7 @@ Definition setter_of (t : str) : option setter :=
   else if tok_is t "port" then Some SPort else if tok_is t "pathname" then Some SPathname
   else if tok_is t "search" then Some SSearch else if tok_is t "hash" then Some SHash else None.
 
-Definition st_str (ps : pstate_) (i : nat) : str := state_str idna (get_slot (ps_store ps) i).
+Definition st_str (ps : pstate_) (i : nat) : str := state_str ops (get_slot (ps_store ps) i).
 Definition put (ps : pstate_) (i : nat) (s : slot) : pstate_ := mk_ps (set_slot (ps_store ps) i s) (ps_usp ps).
 
 Definition err : str := lit "ERR".
@@ -125,9 +126,9 @@ Definition exec (ps : pstate_) (toks : list str) : pstate_ * str :=
         match slot_of ts, parse_arg ta with
         | Some s, Some (e, units) =>
           let base := match slot_of tb with Some b => Some (s_url (get_slot st b)) | None => None end in
-          let r := do_parse idna e units base in
+          let r := do_parse ops e units base in
           if tok_is c "can_parse" then
-            (ps, lit "can_parse " ++ bit (is_some r) ++ lit " agree=1 codes=1 same=1 untouched=1")
+            (ps, lit "can_parse " ++ bit (do_can_parse ops e units base) ++ lit " agree=1 codes=1 same=1 untouched=1")
           else if tok_is c "parse" then
             let sl := get_slot st s in
             let sl' := slot_after_parse sl r in
@@ -147,9 +148,12 @@ Definition exec (ps : pstate_) (toks : list str) : pstate_ * str :=
       | [ts; ta; tb] =>
         match slot_of ts, parse_arg ta, parse_arg tb with
         | Some s, Some (e, units), Some (eb, bunits) =>
-          let bu := do_parse idna eb bunits None in
-          let r := match bu with Some _ => do_parse idna e units (Some bu) | None => None end in
-          if tok_is c "can_parse_sb" then (ps, lit "can_parse " ++ bit (is_some r) ++ lit " agree=1")
+          let bu := do_parse ops eb bunits None in
+          let r := match bu with Some _ => do_parse ops e units (Some bu) | None => None end in
+          if tok_is c "can_parse_sb" then
+            (* can_parse(str, str_base): both strings go through the need_save = false parser *)
+            let r2 := do_can_parse ops eb bunits None && match bu with Some _ => do_can_parse ops e units (Some bu) | None => false end in
+            (ps, lit "can_parse " ++ bit r2 ++ lit " agree=1")
           else if tok_is c "parse_sb" then
             let sl := get_slot st s in
             (* a failing base leaves the target untouched: parse(str, str_base) returns before parsing *)
@@ -174,7 +178,7 @@ Definition exec (ps : pstate_) (toks : list str) : pstate_ * str :=
       | [ts; tw; ta] =>
         match slot_of ts, setter_of tw, parse_arg ta with
         | Some s, Some w, Some (e, units) =>
-            let ps' := put ps s (slot_set idna (get_slot st s) w e units) in
+            let ps' := put ps s (slot_set ops (get_slot st s) w e units) in
             (ps', lit "set" ++ sp_ (st_str ps' s))
         | _, _, _ => (ps, err)
         end
@@ -218,7 +222,7 @@ Definition exec (ps : pstate_) (toks : list str) : pstate_ * str :=
           if is_none src then (ps, lit "reparse skipped") else
           let href := match src with Some u => serialize u false | None => [] end in
           let base := match slot_of tb with Some b => Some (s_url (get_slot st b)) | None => None end in
-          let r := do_parse idna EU8 href base in
+          let r := do_parse ops EU8 href base in
           let sd := get_slot st d in
           let sd' := slot_after_parse sd r in
           let ps' := put ps d sd' in
